@@ -52,10 +52,15 @@ static volatile int in_try[MV_MAXP];
    has nothing in its own run queue must offer the worker to the rest of the program, i.e. try to steal, before it
    polls again (armed at the MVS_TIMEDLOCK hook, which sits right before the yield) */
 static int tl_armed[MV_MAXP]; static long st_tl_polls, st_tl_polls_empty;
+static long lock_iters[MV_MAXP], lock_iter_limit;
 static void observer(int id, int me) {
   if (me >= 0 && in_try[me] && (id == MVP_BLOCK_A || id == MVP_YIELD_A || id == MVP_JOIN_B))
     mt_fail("trylock switched the calling thread away (hook %d reached inside myth_mutex_trylock)", id);
   if (me < 0 || me >= MV_MAXP) return;
+  /* myth_mutex_lock retries its loop only when another thread changed the lock word in between; a call that goes
+     round more often than the whole program changes the word is polling instead of blocking */
+  if (id == MVP_MUTEX_LOCK_A) { if (++lock_iters[me] > lock_iter_limit && lock_iter_limit) mt_fail("myth_mutex_lock went through its retry loop %ld times in one call (the whole program changes the lock word at most %ld times): the caller polls the mutex and keeps its worker instead of blocking", lock_iters[me], lock_iter_limit); }
+  else if (id == MVP_BLOCK_A) lock_iters[me] = 0;
   if (id == MVP_STEAL) tl_armed[me] = 0;
   else if (id == MVP_MUTEX_TRY_A && tl_armed[me])
     mt_fail("a thread waiting in myth_mutex_timedlock polled the mutex again without having tried to steal, although the run queue of its worker %d was empty: it keeps the worker to itself while runnable threads may sit in other queues", me);
@@ -74,6 +79,7 @@ static int acquire(int th, int m, int kind) {
   int ok = 0;
   switch (kind) {
   case A_LOCK:
+    { int me0 = mv_me(); if (me0 >= 0) lock_iters[me0] = 0; }
     logev(th, m, E_ACQ_ENTER, 0);
     if (myth_mutex_lock(&mtx[m]) != 0) mt_fail("myth_mutex_lock returned an error");
     ok = 1; break;
@@ -178,6 +184,7 @@ void scen_c04(mt_case * c) {
   int occ_pos[4] = { 0, 0, 0, 0 };
   for (int i = 0; i < n_occupiers; i++) occ_pos[i] = (int)rd_below(r, (unsigned)P.T + 1);
   if (n_occupiers) mt_desc(" %d occupier thread(s), created after %d/%d/%d script threads: each keeps a worker busy, without yielding, until all script threads have finished\n", n_occupiers, occ_pos[0], occ_pos[1], occ_pos[2]);
+  { long tot = 0; for (int t = 0; t < P.T; t++) tot += P.nsec[t]; lock_iter_limit = 16 * tot + 64; }
   mt_hash(c->prog.p, c->prog.pos);
   myth_verif_clock_fn = vclock;
   mt_allow_prelude = 1;
